@@ -500,6 +500,9 @@ pub fn run_hist<'p>(
             last_pred = None;
             filled = false;
         }
+        if matches!(f[0], "setb" | "setbs" | "filter") {
+            filled = false; // the tags describe the boundaries they were filled for
+        }
         let r: String = match f.as_slice() {
             ["obs"] | ["obs", _] => {
                 let o = obs_sel(&s, f.get(1).copied().unwrap_or(""));
